@@ -422,23 +422,36 @@ func ruleHelpers(c *Ctx, r *Report, rule string) {
 	// scopeCompiler starts zeroed in parse
 	if _, fd := c.find("parse"); fd != nil {
 		ok := false
-		ast.Inspect(fd.Body, func(n ast.Node) bool {
-			kv, isKV := n.(*ast.KeyValueExpr)
-			if !isKV {
-				return true
-			}
-			if id, isID := kv.Key.(*ast.Ident); isID && id.Name == "scope" {
-				if call, isC := kv.Value.(*ast.CallExpr); isC && c.calleeName(call) == "new" {
-					ok = true
-				}
-				if ue, isU := kv.Value.(*ast.UnaryExpr); isU {
-					if cl, isCL := ue.X.(*ast.CompositeLit); isCL && len(cl.Elts) == 0 {
-						ok = true
+		// in parse or in the constructor it calls
+		roots := []ast.Node{fd.Body}
+		c.walkCallsDeep(c.Bcl, fd.Body, func(call *ast.CallExpr) {
+			if fn, isF := c.callee(call).(*types.Func); isF && fn.Pkg() != nil && fn.Pkg().Path() == bclPath {
+				if res := fn.Type().(*types.Signature).Results(); res.Len() == 1 && isNamed(res.At(0).Type(), bclPath, "parser") {
+					if hd := c.funcDecls[fn]; hd != nil && hd.Body != nil {
+						roots = append(roots, hd.Body)
 					}
 				}
 			}
-			return true
 		})
+		for _, root := range roots {
+			ast.Inspect(root, func(n ast.Node) bool {
+				kv, isKV := n.(*ast.KeyValueExpr)
+				if !isKV {
+					return true
+				}
+				if id, isID := kv.Key.(*ast.Ident); isID && id.Name == "scope" {
+					if call, isC := kv.Value.(*ast.CallExpr); isC && c.calleeName(call) == "new" {
+						ok = true
+					}
+					if ue, isU := kv.Value.(*ast.UnaryExpr); isU {
+						if cl, isCL := ue.X.(*ast.CompositeLit); isCL && len(cl.Elts) == 0 {
+							ok = true
+						}
+					}
+				}
+				return true
+			})
+		}
 		r.check(ok, rule, "parse/scope-zeroed", "the scope compiler starts with no locals at depth 0", "parse must start with a zeroed scopeCompiler (new(scopeCompiler))", c.pos(fd.Pos()))
 	}
 }
